@@ -5,7 +5,6 @@
 package cmd
 
 import (
-	"bytes"
 	"os"
 	"path"
 	"regexp"
@@ -289,18 +288,8 @@ func SpecHasHeader(lines []string) bool {
 
 func reMatchDyn(pattern string, s string) bool { return regexp.MustCompile(pattern).MatchString(s) }
 
-func OpaqueSplitNL(s []byte) [][]byte { return bytes.Split(s, []byte("\n")) }
-func OpaqueJoinNL(l [][]byte) []byte  { return bytes.Join(l, []byte("\n")) }
 
-//@ extern bytes.Split
-//@   params s sep
-//@   results r
-//@   ensures implies(sep == "\n", r == OpaqueSplitNL(s))
 
-//@ extern bytes.Join
-//@   params l sep
-//@   results r
-//@   ensures implies(sep == "\n", r == OpaqueJoinNL(l))
 
 // SpecIsIdLine: the line carries the id action of the rule ("id:<rule id>").
 func SpecIsIdLine(ruleId string, line []byte) bool {
@@ -375,13 +364,13 @@ func LemmaFirstId(ruleId string, lines [][]byte, i int) {
 //@ contract updateRegex
 //@   tags C11 C12
 //@   opt termination C11
-//@   requires crs-layout: !SpecIsIdLine(ruleId, OpaqueSplitNL(fileContent(filePath))[0])
+//@   requires crs-layout: !SpecIsIdLine(ruleId, utils.OpaqueSplitNL(fileContent(filePath))[0])
 //@   modifies fsWrites
-//@   use entry LemmaFirstId(ruleId, OpaqueSplitNL(fileContent(filePath)), 0)
+//@   use entry LemmaFirstId(ruleId, utils.OpaqueSplitNL(fileContent(filePath)), 0)
 //@   ensures[C11,C15,C16] one-write-own-path: fsWrites() == old(fsWrites())+1 && lastWritePath() == filePath
-//@   ensures[C11,C12] addressed-line: SpecIsTarget(ruleId, chainOffset, OpaqueSplitNL(old(fileContent(filePath))), index)
-//@   ensures[C11,C12] line-has-rx-operand: reMatch(regex.RuleRxRegex, string(OpaqueSplitNL(old(fileContent(filePath)))[index]))
-//@   ensures[C11,C12] only-operand-replaced: lastWriteData() == OpaqueJoinNL(SpecSetLine(OpaqueSplitNL(old(fileContent(filePath))), index, reGroup(regex.RuleRxRegex, string(OpaqueSplitNL(old(fileContent(filePath)))[index]), 1)+newRegex+reGroup(regex.RuleRxRegex, string(OpaqueSplitNL(old(fileContent(filePath)))[index]), 3)))
+//@   ensures[C11,C12] addressed-line: SpecIsTarget(ruleId, chainOffset, utils.OpaqueSplitNL(old(fileContent(filePath))), index)
+//@   ensures[C11,C12] line-has-rx-operand: reMatch(regex.RuleRxRegex, string(utils.OpaqueSplitNL(old(fileContent(filePath)))[index]))
+//@   ensures[C11,C12] only-operand-replaced: lastWriteData() == utils.OpaqueJoinNL(SpecSetLine(utils.OpaqueSplitNL(old(fileContent(filePath))), index, reGroup(regex.RuleRxRegex, string(utils.OpaqueSplitNL(old(fileContent(filePath)))[index]), 1)+newRegex+reGroup(regex.RuleRxRegex, string(utils.OpaqueSplitNL(old(fileContent(filePath)))[index]), 3)))
 //@   loop 0 invariant 0 <= rangeIndex0 && rangeIndex0 <= len(lines) && implies(rangeIndex0 > 0, index == rangeIndex0-1) && implies(rangeIndex0 == 0, index == 0)
 //@   loop 0 invariant implies(!foundRule, SpecFirstId(ruleId, lines, 0) >= rangeIndex0 && chainCount == 0)
 //@   loop 0 invariant implies(foundRule, SpecFirstId(ruleId, lines, 0) < rangeIndex0 && chainOffset != 0 && chainCount < chainOffset && chainCount == SpecCountSec(lines, SpecFirstId(ruleId, lines, 0)+1, rangeIndex0))
@@ -392,12 +381,12 @@ func LemmaFirstId(ruleId string, lines [][]byte, i int) {
 //@   tags C12 C11
 //@   opt termination C12
 //@   results r
-//@   requires crs-layout: !SpecIsIdLine(ruleId, OpaqueSplitNL(fileContent(filePath))[0])
-//@   use entry LemmaFirstId(ruleId, OpaqueSplitNL(fileContent(filePath)), 0)
+//@   requires crs-layout: !SpecIsIdLine(ruleId, utils.OpaqueSplitNL(fileContent(filePath))[0])
+//@   use entry LemmaFirstId(ruleId, utils.OpaqueSplitNL(fileContent(filePath)), 0)
 //@   ensures[C12,C15] reads-only: fsWrites() == old(fsWrites())
-//@   ensures addressed-line: SpecIsTarget(ruleId, chainOffset, OpaqueSplitNL(fileContent(filePath)), index)
-//@   ensures line-has-rx-operand: reMatch(regex.RuleRxRegex, string(OpaqueSplitNL(fileContent(filePath))[index]))
-//@   ensures operand: r == reGroup(regex.RuleRxRegex, string(OpaqueSplitNL(fileContent(filePath))[index]), 2)
+//@   ensures addressed-line: SpecIsTarget(ruleId, chainOffset, utils.OpaqueSplitNL(fileContent(filePath)), index)
+//@   ensures line-has-rx-operand: reMatch(regex.RuleRxRegex, string(utils.OpaqueSplitNL(fileContent(filePath))[index]))
+//@   ensures operand: r == reGroup(regex.RuleRxRegex, string(utils.OpaqueSplitNL(fileContent(filePath))[index]), 2)
 //@   loop 0 invariant 0 <= rangeIndex0 && rangeIndex0 <= len(lines) && implies(rangeIndex0 > 0, index == rangeIndex0-1) && implies(rangeIndex0 == 0, index == 0)
 //@   loop 0 invariant implies(!foundRule, SpecFirstId(ruleId, lines, 0) >= rangeIndex0 && chainCount == 0)
 //@   loop 0 invariant implies(foundRule, SpecFirstId(ruleId, lines, 0) < rangeIndex0 && chainOffset != 0 && chainCount < chainOffset && chainCount == SpecCountSec(lines, SpecFirstId(ruleId, lines, 0)+1, rangeIndex0))
